@@ -210,23 +210,37 @@ pub fn header_palette() -> &'static Vec<MHeader> {
     // ... and an extra parameter whose value is a small bignum (tag 2), which the CBOR layer
     // folds into a plain integer when parsing
     v.push(MHeader { rest: vec![(MLabel::Int(1000), MValue::Tag(2, Box::new(MValue::Bytes(vec![1]))))], ..h() }); // 29
+    // protected bstr whose serialised length sits exactly on each CBOR head boundary
+    // ({4: kid} encodes as a1 04 <head> <kid>): 23, 24, 255, 256 bytes here; 65535 and 65536 are
+    // appended last (rarely picked, they are expensive)
+    v.push(kid(&pat(20, 15)));
+    v.push(kid(&pat(21, 16)));
+    v.push(kid(&pat(251, 17)));
+    v.push(kid(&pat(252, 18)));
     // protected bstr in the 24..=255 and 128..=255 length classes
     v.push(kid(&pat(60, 13)));
     v.push(kid(&pat(200, 14)));
     // a header nesting a counter signature whose own protected header holds a counter signature
         let inner = MHeader { counter_signatures: vec![sig(alg(-7), h(), b"deep")], ..h() };
         v.push(MHeader { counter_signatures: vec![sig(inner, h(), b"outer")], ..h() }); // 30
+        v.push(kid(&pat(65530, 19)));
+        v.push(kid(&pat(65531, 20)));
         v
     })
 }
+
+/// Number of expensive entries at the end of the header palette.
+pub const BIG_HEADERS: usize = 2;
 
 /// Weighted header index: the empty header and the simple ones most often.
 pub fn pick_header_idx(rng: &mut Rng) -> usize {
     let n = header_palette().len();
     if rng.chance(1, 8) {
         0
+    } else if rng.chance(1, 100) {
+        n - 1 - rng.below(BIG_HEADERS)
     } else {
-        rng.below(n)
+        rng.below(n - BIG_HEADERS)
     }
 }
 
@@ -247,6 +261,14 @@ pub fn check_palettes() -> Result<(), String> {
         // reference encodings must be well-formed CBOR
         if refcbor::read_exact(&encs[i]).is_err() {
             return Err(format!("header palette entry {} reference encoding malformed", i));
+        }
+    }
+    // the boundary entries must really sit on the boundaries (reference encoding lengths)
+    let mut lens: Vec<usize> = encs.iter().map(|e| e.len()).collect();
+    lens.sort();
+    for want in [23usize, 24, 255, 256, 65535, 65536] {
+        if !lens.contains(&want) {
+            return Err(format!("no header palette entry whose reference encoding is {} bytes long", want));
         }
     }
     let bs = bytes_palette();
